@@ -107,3 +107,53 @@ def short_event(ev):
         keep["post_len"] = e["post"].get("len")
         keep["post_mem"] = e["post"].get("mem")
     return json.dumps(keep, sort_keys=True)
+
+
+def run_stories(prop, fxv, rd, kind, n, what):
+    """Directed stories (fxv faultstory / inflightstory): each run records one sequential history of the
+    real store, TraceStore.tla judges it (ResultsMatch, AccountingExact).  Returns (violations, traces, states)."""
+    import shutil
+    shm = v.shm_dir("%s-%s" % (prop.lower(), kind))
+    stories = []
+    try:
+        for i in range(n):
+            t = os.path.join(rd, "%s_%d.ndjson" % (kind, i))
+            rc, so, se = v.run_cmd([fxv, kind, "--out", t, "--dir", shm, "--attempts", "80", "--cache", str(i % 2)], timeout=180)
+            if rc == 3:
+                continue            # the workers never produced the layout of the story
+            if rc != 0:
+                raise v.ToolError("fxv %s failed: %s" % (kind, se[-400:]))
+            stories.append(t)
+    finally:
+        shutil.rmtree(shm, ignore_errors=True)
+    if not stories:
+        raise v.ToolError("%s: the story could not be produced in any run" % kind)
+    viol = []
+    states = 0
+    for g in validate(rd, stories, ["ResultsMatch", "AccountingExact"], kind, chunk=1):
+        r = g["r"]
+        states += r.distinct
+        if r.violation and r.violation.startswith("invariant"):
+            tt, i, ev, fl = explain(g)
+            keep = v.save_replay(prop.lower(), os.path.basename(tt), open(tt).read())
+            viol.append({"what": "%s: %s flags=%s at event %s: %s" % (what, r.violation, fl, i, short_event(ev)),
+                         "replay": keep, "key": "%s %s %s" % (kind, r.violation, fl)})
+        else:
+            v.tlc_ok(r, "TraceStore(%s)" % kind)
+    return viol, len(stories), states
+
+
+def replay_story(prop, path):
+    g = validate(v.run_dir(prop.lower() + "_replay"), [path], ["ResultsMatch", "AccountingExact"], "replay")[0]
+    if g["r"].violation:
+        t, i, ev, fl = explain(g)
+        print("rejected: %s flags=%s at event %s: %s" % (g["r"].violation, fl, i, short_event(ev)))
+        print("VIOLATION property=%s replay=%s" % (prop, path))
+        return 1
+    print("trace accepted")
+    return 0
+
+
+def is_story(path):
+    b = os.path.basename(path)
+    return b.startswith("faultstory_") or b.startswith("inflightstory_")
